@@ -328,7 +328,7 @@ add("C02", "TLC on IndexOps.tla (exact sparse matrices of the index-map operator
     "TransposeOperator (all six orders of three sub-domains), ValueInserter, DomainTupleFieldInserter, SliceOperator (start / centred, also next to "
     "a multi-axis sub-domain kept by None and next to an unstructured domain) and SplitOperator with stepped python slices; TLC checks "
     "(partial) permutation laws and that a slice selects ceil((stop-start)/step) pixels; dense forward and adjoint matrices of the real "
-    "operators are compared. 56 constructions covering every exported linear operator class are checked with seeded real and complex vectors for "
+    "operators are compared. 55 constructions covering every exported linear operator class are checked with seeded real and complex vectors for "
     "<y, A x> = <A^H y, x> (real part for the real-linear ones), linearity with complex factors, advertised (adjoint) inverses, the declared "
     "target and that the input field is not modified.",
     TRUST + "exact matrices of the harmonic / padding / regridding / interpolation / mask / line-of-sight / non-uniform Fourier operators are in C09 and C35, the operator algebra in C01.")
